@@ -283,14 +283,23 @@ fn hydrocarbon_pairs(args: &Args, rng: &mut Rng) -> Vec<(String, Arc<M>, f64, f6
     }
     rng.shuffle(&mut pairs);
     let keep = if args.thorough { pairs.len() } else { 12 };
-    pairs
+    let mut out: Vec<(String, Arc<M>, f64, f64)> = pairs
         .into_iter()
         .take(keep)
         .map(|(i, j)| {
             let p = PcSaftParameters::new_binary(vec![recs[i].clone(), recs[j].clone()], None).unwrap();
             (format!("gross2001[{}+{}]", i, j), Arc::new(M::PcSaft(PcSaft::new(Arc::new(p)))), tcs[i].min(tcs[j]), tcs[i].max(tcs[j]))
         })
-        .collect()
+        .collect();
+    // asymmetric pairs (critical temperature ratio 1.5 .. 1.8, still inside the domain of the success clause; both tiers visit their whole grid):
+    // methane/ethane, ethane/hexane, propane/octane, carbon dioxide/hexane
+    for (i, j) in [(0usize, 1usize), (1, 5), (2, 7), (54, 5)] {
+        if tcs[i].is_finite() && tcs[j].is_finite() {
+            let p = PcSaftParameters::new_binary(vec![recs[i].clone(), recs[j].clone()], None).unwrap();
+            out.push((format!("asym:gross2001[{}+{}]", i, j), Arc::new(M::PcSaft(PcSaft::new(Arc::new(p)))), tcs[i].min(tcs[j]), tcs[i].max(tcs[j])));
+        }
+    }
+    out
 }
 
 fn mixture_events(tr: &mut Tr, args: &Args, rng: &mut Rng) {
@@ -315,7 +324,7 @@ fn mixture_events(tr: &mut Tr, args: &Args, rng: &mut Rng) {
                 grid.push((tf, x1));
             }
         }
-        if !args.thorough {
+        if !args.thorough && !name.starts_with("asym:") {
             rng.shuffle(&mut grid);
             grid.truncate(2);
         }
